@@ -49,6 +49,11 @@ func drawC14(t *rapid.T) Case {
 	if !json.Valid(c.Doc) {
 		c.Doc = []byte(`{"a":[1,{"b":null}]}`)
 	}
+	// one case in forty: thousands of sibling containers (every nesting budget is 4096: a counter that is not
+	// given back per container runs out on a flat document)
+	if rapid.IntRange(0, 39).Draw(t, "bulk") == 0 {
+		c.Doc = drawC14Bulk(t)
+	}
 	c.Opts = rapid.IntRange(0, 7).Draw(t, "opts")
 	c.Entry = rapid.IntRange(0, len(c14EntryNames)-1).Draw(t, "entry")
 	c.Views = rapid.IntRange(0, 3).Draw(t, "views")
@@ -64,6 +69,48 @@ func drawC14(t *rapid.T) Case {
 		c.DocText = string(c.Doc)
 	}
 	return c
+}
+
+// drawC14Bulk draws a flat document with 4000..9000 small containers as siblings, optionally below a few levels.
+func drawC14Bulk(t *rapid.T) []byte {
+	n := []int{4000, 4095, 4096, 4097, 4200, 5000, 9000}[rapid.IntRange(0, 6).Draw(t, "bulkn")]
+	kind := rapid.IntRange(0, 3).Draw(t, "bulkkind") // 0 arrays, 1 objects, 2 alternating, 3 one level deeper
+	asObj := rapid.Bool().Draw(t, "bulkroot")
+	var b strings.Builder
+	pre := rapid.IntRange(0, 3).Draw(t, "bulkpre")
+	for i := 0; i < pre; i++ {
+		b.WriteString(`{"a":[`)
+	}
+	if asObj {
+		b.WriteByte('{')
+	} else {
+		b.WriteByte('[')
+	}
+	for i := 0; i < n; i++ {
+		if i > 0 {
+			b.WriteByte(',')
+		}
+		if asObj {
+			fmt.Fprintf(&b, `"k%d":`, i)
+		}
+		switch {
+		case kind == 0 || (kind == 2 && i%2 == 0):
+			b.WriteString(`[]`)
+		case kind == 1 || kind == 2:
+			b.WriteString(`{}`)
+		default:
+			b.WriteString(`[{"x":[1]}]`)
+		}
+	}
+	if asObj {
+		b.WriteByte('}')
+	} else {
+		b.WriteByte(']')
+	}
+	for i := 0; i < pre; i++ {
+		b.WriteString(`]}`)
+	}
+	return []byte(b.String())
 }
 
 // drawC14Path draws a path into the document: mostly existing, sometimes missing, out of range or into a scalar.
@@ -636,8 +683,12 @@ func (c *C14Case) classes(res *stat.Result, root, want *ref.Node) {
 		res.Classes = append(res.Classes, "found")
 	}
 	dup, wide := false, false
+	containers := 0
 	var walk func(n *ref.Node)
 	walk = func(n *ref.Node) {
+		if n.Kind == ref.TObjOpen || n.Kind == ref.TArrOpen {
+			containers++
+		}
 		if n.Kind == ref.TObjOpen {
 			seen := map[string]bool{}
 			for _, k := range n.Keys {
@@ -655,6 +706,16 @@ func (c *C14Case) classes(res *stat.Result, root, want *ref.Node) {
 		}
 	}
 	walk(root)
+	if containers > 4096 {
+		res.Classes = append(res.Classes, "over-4096-containers")
+		if want != nil {
+			containers = 0
+			walk(want)
+			if containers > 4096 {
+				res.Classes = append(res.Classes, "over-4096-containers-in-located-value")
+			}
+		}
+	}
 	if dup {
 		res.Classes = append(res.Classes, "dup-key")
 	}
